@@ -214,6 +214,14 @@ pub fn judge(_cfg: &Config, case: &Case, l: &mut Local) {
                     );
                     match (&typed, &auto) {
                         (Ok(t), Ok(a)) => {
+                            // the typed accessors of the wrapper: exactly the one of the announced type answers
+                            if let Ok(acc) = guard(|| crate::registry::accessors(a)) {
+                                for (c, as_some, into_some) in acc {
+                                    if as_some != (c == code.as_str()) || into_some != (c == code.as_str()) {
+                                        v(l, "ParsedSwiftMessage::as/into", code, "accessor-disagrees", format!("announced {code}: as_mt{c} is_some={as_some}, into_mt{c} is_some={into_some}"), case);
+                                    }
+                                }
+                            }
                             if a.message_type() != code {
                                 v(l, "parse_auto", code, "wrong-type", format!("parse_auto reports type {} for announced {code}", a.message_type()), case);
                             }
